@@ -202,7 +202,7 @@ class C01(RunSpec):
         "non-trivial when >=1 evaluated point lay within 1% of a face; distinct = distinct (engine mix, box class, objective family)"
     )
     monitors = (_mon("C01Box"),)
-    sizes = {"quick": 160, "thorough": 12000}
+    sizes = {"quick": 160, "thorough": 9000}
 
     def profile(self, rng, idx, tier):
         p = {"dim": (2, 6), "stacks": False}
